@@ -14,7 +14,7 @@ use serde_json::json;
 pub static MONITOR: Monitor = Monitor {
     id: "C19",
     title: "Competing declarations are resolved by the CSS cascade",
-    rule: "Exhaustive part: every ordered pair (and, in the thorough tier, a large deterministic sample of ordered triples) of `color` declarations drawn from origin {agent (add_agent_css), user (add_css), author (<style> + use_doc_css), inline (style=)} x {normal, !important} x selector specificity class {element, class, id, element+class, :nth-child} x both source orders, applied to one element `<p class=c id=i>`; every declaration has its own colour. Random part: sheets of up to 12 colour / background-color / background rules in all origins plus inline styles over nested documents in which every element owns a token. Reference cascade (harness): sort key (importance/origin rank agent < user < author < author! < user! < agent!, inline flag, (ids, classes+pseudo-classes, types), source order), greatest wins. Observation: the Colour / BgColour annotations on each element's own token in rich output, as the sequence contributed by its ancestors-or-self; expected sequence = per element the cascade winner of the declarations whose selector matches it (reference matcher of C20). Distinct/non-trivial = distinct (declaration set, element) cases with at least two competing declarations for the same property on one element.",
+    rule: "Exhaustive part: every ordered pair and every ordered triple of `color` declarations drawn from origin {agent (add_agent_css), user (add_css), author (<style> + use_doc_css), inline (style=)} x {normal, !important} x selector specificity class {element, class, id, element+class, :nth-child} x both source orders, applied to one element `<p class=c id=i>`; every declaration has its own colour. Random part: sheets of up to 12 colour / background-color / background rules in all origins plus inline styles over nested documents in which every element owns a token. Reference cascade (harness): sort key (importance/origin rank agent < user < author < author! < user! < agent!, inline flag, (ids, classes+pseudo-classes, types), source order), greatest wins. Observation: the Colour / BgColour annotations on each element's own token in rich output, as the sequence contributed by its ancestors-or-self; expected sequence = per element the cascade winner of the declarations whose selector matches it (reference matcher of C20). Distinct/non-trivial = distinct (declaration set, element) cases with at least two competing declarations for the same property on one element.",
     assumptions: &[
         "selector matching itself is C20's subject; the selectors used here are simple enough to be uncontroversial in the exhaustive part",
         "declarations of one origin are given to the renderer in the order listed (one sheet per origin, or two add_css calls in order)",
@@ -50,16 +50,21 @@ fn pairs() -> u64 {
     n * n
 }
 
+fn triples() -> u64 {
+    let n = decl_space().len() as u64;
+    n * n * n
+}
+
 fn plan(tier: Tier) -> Plan {
     match tier {
         Tier::Quick => Plan {
-            cases: pairs() + 10_000 + 40_000,
+            cases: pairs() + triples() + 40_000,
             time_cap_s: 40,
             case_timeout_s: 20,
             exhaustive: false,
         },
         Tier::Thorough => Plan {
-            cases: pairs() + 60_000 + 200_000,
+            cases: pairs() + triples() + 2_000_000,
             time_cap_s: 360,
             case_timeout_s: 20,
             exhaustive: false,
@@ -71,7 +76,7 @@ fn thresholds(_t: Tier) -> Vec<(&'static str, u64)> {
     vec![
         ("cases", 1000),
         ("pairs_enumerated", 1000),
-        ("triples_sampled", 1000),
+        ("triples_enumerated", 30_000),
         ("random_elements_decided", 20_000),
         ("competitions_decided", 5000),
         ("distinct", 1000),
@@ -522,21 +527,17 @@ fn run_case(seed: u64, idx: u64, tier: Tier, out: &mut CaseOut) {
     let space = decl_space();
     let n = space.len() as u64;
     let np = pairs();
-    let ntriples = match tier {
-        Tier::Quick => 10_000,
-        Tier::Thorough => 60_000,
-    };
+    let _ = tier;
+    let ntriples = triples();
     if idx < np {
         out.inc("pairs_enumerated");
         let a = space[(idx / n) as usize];
         let b = space[(idx % n) as usize];
         check_fixed(out, &[a, b]);
     } else if idx < np + ntriples {
-        out.inc("triples_sampled");
-        // deterministic spread over the n^3 triples (independent of the seed),
-        // shifted by the seed so that different seeds cover different triples
-        let total = n * n * n;
-        let k = ((idx - np).wrapping_mul(2_654_435_761).wrapping_add(seed.wrapping_mul(97))) % total;
+        out.inc("triples_enumerated");
+        let _ = seed;
+        let k = idx - np;
         let a = space[(k / (n * n)) as usize];
         let b = space[((k / n) % n) as usize];
         let c = space[(k % n) as usize];
